@@ -15,7 +15,7 @@ Qed.
 Lemma glob1_eq : forall t dir pat m, afero_glob1 t dir pat m = std_glob1 t dir pat m.
 Proof.
   intros t dir pat m. unfold afero_glob1, std_glob1.
-  destruct (lookup t dir) as [[|kids]|]; try reflexivity. apply glob_names_eq.
+  destruct (tree_lookup t dir) as [[|kids]|]; try reflexivity. apply glob_names_eq.
 Qed.
 
 Lemma glob_over_eq : forall t file ds m, afero_glob_over t file ds m = std_glob_over t file ds m.
@@ -125,7 +125,7 @@ Proof.
   destruct (match_seg pat []) as [b|]; [|discriminate Hacc].
   rewrite (has_meta_std pat Hne).
   destruct (has_meta pat) eqn:Hm; cbn [negb] in *.
-  2:{ destruct (lookup t pat); reflexivity. }
+  2:{ destruct (tree_lookup t pat); reflexivity. }
   rewrite (surjective_pairing (path_split pat)).
   rewrite afero_dir_is_clean_glob_path.
   set (dir := clean_glob_path (fst (path_split pat))) in *.
@@ -184,7 +184,7 @@ Qed.
 
 Lemma glob1_fuel : forall t dir pat m, snd (afero_glob1 t dir pat m) <> GOutOfFuel.
 Proof.
-  intros t dir pat m. unfold afero_glob1. destruct (lookup t dir) as [[|kids]|]; try discriminate.
+  intros t dir pat m. unfold afero_glob1. destruct (tree_lookup t dir) as [[|kids]|]; try discriminate.
   apply glob_names_fuel.
 Qed.
 
@@ -201,7 +201,7 @@ Proof.
   induction fuel as [|f IH]; intros t pat Hlen; [lia|].
   cbn [afero_glob_f].
   destruct (has_meta pat) eqn:Hm; cbn [negb].
-  2:{ destruct (lookup t pat); discriminate. }
+  2:{ destruct (tree_lookup t pat); discriminate. }
   rewrite (surjective_pairing (path_split pat)). rewrite afero_dir_is_clean_glob_path.
   set (dir := clean_glob_path (fst (path_split pat))).
   destruct (has_meta dir) eqn:Hmd; cbn [negb].
@@ -571,7 +571,7 @@ Qed.
 
 Lemma glob1_wf : forall t dir file m, wfs PTop file -> snd (afero_glob1 t dir file m) = GNil.
 Proof.
-  intros t dir file m H. unfold afero_glob1. destruct (lookup t dir) as [[|kids]|]; try reflexivity.
+  intros t dir file m H. unfold afero_glob1. destruct (tree_lookup t dir) as [[|kids]|]; try reflexivity.
   apply glob_names_wf. exact H.
 Qed.
 
@@ -588,7 +588,7 @@ Proof.
   induction fuel as [|f IH]; intros t q Hlen H; [lia|].
   cbn [afero_glob_f].
   destruct (has_meta q) eqn:Hm; cbn [negb].
-  2:{ destruct (lookup t q); reflexivity. }
+  2:{ destruct (tree_lookup t q); reflexivity. }
   rewrite (surjective_pairing (path_split q)). rewrite afero_dir_is_clean_glob_path.
   set (dir := clean_glob_path (fst (path_split q))).
   pose proof (wfs_file q H) as Hf.
@@ -622,7 +622,7 @@ Lemma glob1_spec : forall t dir file m, wfs PTop file ->
   afero_glob1 t dir file m = (m ++ glob_level t dir file, GNil).
 Proof.
   intros t dir file m H. unfold afero_glob1, glob_level.
-  destruct (lookup t dir) as [[|kids]|]; try (rewrite app_nil_r; reflexivity).
+  destruct (tree_lookup t dir) as [[|kids]|]; try (rewrite app_nil_r; reflexivity).
   apply glob_names_spec. exact H.
 Qed.
 
@@ -640,7 +640,7 @@ Proof.
   induction fuel as [|f IH]; intros t q Hlen H; [lia|].
   cbn [afero_glob_f glob_spec_f].
   destruct (has_meta q) eqn:Hm; cbn [negb].
-  2:{ destruct (lookup t q); reflexivity. }
+  2:{ destruct (tree_lookup t q); reflexivity. }
   rewrite (surjective_pairing (path_split q)). rewrite afero_dir_is_clean_glob_path. cbn [fst snd].
   set (dir := clean_glob_path (fst (path_split q))).
   pose proof (wfs_file q H) as Hf.
